@@ -22,6 +22,7 @@ MUTANTS = [
      'old': "        minimum = self.min\n        if minimum is None:\n            minimum = X.min() - EPSILON\n", 'new': "        minimum = self.min or X.min() - EPSILON\n"},
     {'name': 'truncated-max-if-not', 'rule': 'D3.bounds', 'file': 'univariate/truncated_gaussian.py',
      'old': "        if maximum is None:\n", 'new': "        if not maximum:\n"},
+    {'name': 'kde-model-on-callers-array', 'rule': 'D4.kde', 'file': KD, 'old': "        self._params = {'dataset': X.tolist()}\n        self._model = self._get_model()\n", 'new': "        self._params = {'dataset': X.tolist()}\n        self._model = gaussian_kde(np.asarray(X), bw_method=self.bw_method, weights=self.weights)\n"},
 ]
 REWRITES = [
     {'name': 'gaussian-methods', 'file': 'univariate/gaussian.py', 'old': "self._params = {'loc': np.mean(X), 'scale': np.std(X)}", 'new': "self._params = {'loc': X.mean(), 'scale': X.std()}"},
@@ -30,4 +31,5 @@ REWRITES = [
     {'name': 'gaussian-ddof-zero-explicit', 'file': 'univariate/gaussian.py', 'old': "'scale': np.std(X)}", 'new': "'scale': np.std(X, ddof=0)}"},
     {'name': 'truncated-bounds-conditional-expression', 'file': 'univariate/truncated_gaussian.py',
      'old': "        minimum = self.min\n        if minimum is None:\n            minimum = X.min() - EPSILON\n", 'new': "        minimum = X.min() - EPSILON if self.min is None else self.min\n"},
+    {'name': 'kde-model-on-a-copy', 'file': KD, 'old': "        self._params = {'dataset': X.tolist()}\n        self._model = self._get_model()\n", 'new': "        self._params = {'dataset': X.tolist()}\n        self._model = gaussian_kde(np.array(self._params['dataset']), bw_method=self.bw_method, weights=self.weights)\n"},
 ]
